@@ -63,11 +63,34 @@ def r1_debug_asserts(body, may_fail=()):
         inner = s[ob + 1:cb]
         im = re.match(r'\s*if !\(', inner)
         ok = False
-        if im:
+        if not im:
+            # rustc prints `debug_assert!(f(x))` as `if !f(x) {` (no parentheses around a call/path/unary condition)
+            im2 = re.match(r'\s*if !', inner)
+            if im2:
+                c0 = ob + 1 + im2.end()
+                jj = None
+                depth = 0
+                for k2, a2, b2 in tokens(s, c0, cb):
+                    if k2 != 'punct':
+                        continue
+                    ch = s[a2]
+                    if ch in '([':
+                        depth += 1
+                    elif ch in ')]':
+                        depth -= 1
+                    elif ch == '{' and depth == 0:
+                        jj = a2
+                        break
+                if jj is not None:
+                    im = im2
+                    cond = s[c0:jj]
+                    j = jj
+        else:
             p_open = ob + 1 + im.end() - 1
             p_close = match_delim(s, p_open)
             cond = s[p_open + 1:p_close]
             j = _skip_ws(s, p_close + 1)
+        if im:
             if s[j] == '{':
                 jb = match_delim(s, j)
                 blk = s[j + 1:jb]
@@ -522,6 +545,12 @@ SELFTEST = [
     (r1_debug_asserts,
      '{ if true {\n if !(len < N) {\n ::core::panicking::panic("assertion failed: len < N")\n };\n };\n ;\n x }',
      ['{ if !(len < N) { verif_debug_panic() }\n x }']),
+    (r1_debug_asserts,
+     '{ if true {\n if !self.is_valid() {\n ::core::panicking::panic("assertion failed: self.is_valid()")\n };\n };\n x }',
+     ['{ if !(self.is_valid()) { verif_debug_panic() }\n x }']),
+    (r1_debug_asserts,
+     '{ if true {\n if !!self.is_equiv(other) {\n ::core::panicking::panic("assertion failed")\n };\n };\n x }',
+     ['{ if !(!self.is_equiv(other)) { verif_debug_panic() }\n x }']),
     (r1_debug_asserts,
      '{ if !(a <= b) { ::core::panicking::panic("assertion failed") }; y }',
      ['if !(a <= b) { verif_panic() }; y']),
